@@ -113,6 +113,9 @@ pub struct Found {
   pub detail: String,
   pub case: Value,
   pub shrunk: bool,
+  /// wall-clock setting ("secs.nanos") of the child process that found it, if any
+  #[serde(default)]
+  pub clock: Option<String>,
 }
 
 #[derive(Default)]
@@ -212,6 +215,87 @@ impl Ctx {
   }
   pub fn quick(&self) -> bool {
     self.tier == Tier::Quick
+  }
+  /// true in a child process that runs under a shifted wall clock (see `clock_children`)
+  pub fn is_clock_child(&self) -> bool {
+    std::env::var("PV_CHILD").is_ok()
+  }
+
+  /// Re-runs this property's reduced job set in child processes whose wall clock has been SET (LD_PRELOAD shim
+  /// tools/fakeclock.c) to each of `instants` (label, seconds since the epoch, nanoseconds), and folds their reports in.
+  /// Without the shim this is a no-op that leaves a note in the evidence.
+  pub fn clock_children(&self, instants: &[(&str, i64, u32)]) {
+    let lib = std::env::var("PV_FAKECLOCK").map(PathBuf::from).unwrap_or_else(|_| verif_dir().join(".work").join("libfakeclock.so"));
+    let mut rep = SubReport { name: format!("{}/under-a-set-clock", self.property), exhaustive: Some(false), ..Default::default() };
+    if !lib.exists() || self.is_clock_child() {
+      rep.extra.insert("skipped".into(), json!("clock shim not built"));
+      if !self.is_clock_child() {
+        self.reports.lock().unwrap().push(rep);
+      }
+      return;
+    }
+    let exe = match std::env::current_exe() {
+      Ok(e) => e,
+      Err(_) => return,
+    };
+    let t0 = Instant::now();
+    let mut per_clock = serde_json::Map::new();
+    for (label, secs, nanos) in instants {
+      let clock = format!("{}.{:09}", secs, nanos);
+      let out = std::process::Command::new(&exe)
+        .args([self.property, if self.quick() { "quick" } else { "thorough" }])
+        .env("LD_PRELOAD", &lib)
+        .env("PV_CLOCK_SET", &clock)
+        .env("PV_CHILD", "1")
+        .env("VERIF_SEED", self.seed.to_string())
+        .env("PV_VERIF", verif_dir())
+        .output();
+      let out = match out {
+        Ok(o) => o,
+        Err(e) => {
+          per_clock.insert(label.to_string(), json!({"error": e.to_string()}));
+          continue;
+        }
+      };
+      let text = String::from_utf8_lossy(&out.stdout);
+      let line = text.lines().rev().find(|l| l.starts_with("PVCHILD "));
+      let v: Value = match line.and_then(|l| serde_json::from_str(&l[8..]).ok()) {
+        Some(v) => v,
+        None => {
+          per_clock.insert(label.to_string(), json!({"error": "child produced no report", "exit": out.status.code()}));
+          rep.extra.insert("aborted".into(), json!(format!("clock child {label} produced no report")));
+          continue;
+        }
+      };
+      let n = v["evaluations"].as_u64().unwrap_or(0);
+      let nt = v["distinct_nontrivial"].as_u64().unwrap_or(0);
+      rep.evaluations += n;
+      for i in 0..nt {
+        rep.nontrivial.insert(hash_of(&(label, i)));
+      }
+      *rep.classes.entry(format!("clock:{label}")).or_insert(0) += n;
+      if let Some(found) = v["found"].as_array() {
+        for f in found {
+          rep.found.push(Found {
+            sub: f["sub"].as_str().unwrap_or("").to_string(),
+            sig: f["sig"].as_str().unwrap_or("").to_string(),
+            detail: format!("[wall clock set to {} = {}] {}", clock, label, f["detail"].as_str().unwrap_or("")),
+            case: f["case"].clone(),
+            shrunk: f["shrunk"].as_bool().unwrap_or(false),
+            clock: Some(clock.clone()),
+          });
+        }
+      }
+      if let Some(s) = v["sample"].as_object() {
+        if rep.samples.len() < 3 {
+          rep.samples.push(json!({"clock": clock, "label": label, "case": s}));
+        }
+      }
+      per_clock.insert(label.to_string(), json!({"set_to": clock, "evaluations": n, "distinct_nontrivial": nt}));
+    }
+    rep.extra.insert("clocks".into(), Value::Object(per_clock));
+    rep.wall_s = t0.elapsed().as_secs_f64();
+    self.reports.lock().unwrap().push(rep);
   }
   /// `q` in the quick tier, `t` in the thorough tier
   pub fn n(&self, q: u32, t: u32) -> u32 {
@@ -316,7 +400,7 @@ impl Ctx {
           Verdict::Violation { detail, .. } => detail,
           _ => "(violation did not reproduce on the shrunk case)".to_string(),
         };
-        rep.found.push(Found { sub: name.clone(), sig, detail, case: serde_json::to_value(&minimal).unwrap_or(Value::Null), shrunk: true });
+        rep.found.push(Found { sub: name.clone(), sig, detail, case: serde_json::to_value(&minimal).unwrap_or(Value::Null), shrunk: true, clock: None });
       }
       Err(TestError::Abort(reason)) => {
         rep.extra.insert("aborted".into(), Value::String(reason.to_string()));
@@ -347,7 +431,7 @@ impl Ctx {
           if self.known.contains(&sig) {
             *rep.known_hits.entry(sig).or_insert(0) += 1;
           } else if seen_sigs.insert(sig.clone()) && rep.found.len() < 20 {
-            rep.found.push(Found { sub: name.clone(), sig, detail, case: serde_json::to_value(&case).unwrap_or(Value::Null), shrunk: false });
+            rep.found.push(Found { sub: name.clone(), sig, detail, case: serde_json::to_value(&case).unwrap_or(Value::Null), shrunk: false, clock: None });
           }
         }
       }
@@ -400,7 +484,7 @@ impl Ctx {
         if self.known.contains(&sig) {
           *rep.known_hits.entry(sig).or_insert(0) += 1;
         } else if seen.insert(sig.clone()) {
-          rep.found.push(Found { sub: sub.name(), sig, detail, case: serde_json::to_value(&case).unwrap_or(Value::Null), shrunk: false });
+          rep.found.push(Found { sub: sub.name(), sig, detail, case: serde_json::to_value(&case).unwrap_or(Value::Null), shrunk: false, clock: None });
         }
       }
     }
@@ -541,6 +625,13 @@ pub fn finish(ctx: Ctx, meta: EvidenceMeta) -> Outcome {
       extra.insert(format!("{}:{}", r.name, k), v.clone());
     }
   }
+  if std::env::var("PV_CHILD").is_ok() {
+    // child under a set clock: hand the raw results to the parent, which writes evidence and replay files
+    let sample = reports.iter().flat_map(|r| r.samples.iter()).next().cloned().unwrap_or(Value::Null);
+    let body = json!({"evaluations": evaluations, "distinct_nontrivial": nontrivial.len(), "found": all_found, "sample": {"case": sample}});
+    println!("PVCHILD {}", body);
+    return Outcome { exit_code: 0 };
+  }
   // one replay file per distinct signature
   let mut exit_code = 0;
   let mut seen: HashSet<String> = HashSet::new();
@@ -559,7 +650,10 @@ pub fn finish(ctx: Ctx, meta: EvidenceMeta) -> Outcome {
     }
     let h = hash_of(&f.sig);
     let path = dir.join("replays").join(format!("{}-{:012x}.json", ctx.property, h & 0xffff_ffff_ffff));
-    let body = json!({"property": ctx.property, "sub": f.sub, "signature": f.sig, "detail": f.detail, "shrunk": f.shrunk, "case": f.case});
+    let mut body = json!({"property": ctx.property, "sub": f.sub, "signature": f.sig, "detail": f.detail, "shrunk": f.shrunk, "case": f.case});
+    if let Some(c) = &f.clock {
+      body["clock"] = json!(c);
+    }
     let _ = std::fs::write(&path, serde_json::to_string_pretty(&body).unwrap());
     let mut d = f.detail.clone();
     if d.len() > 700 {
@@ -645,6 +739,17 @@ pub fn replay(property: &str, subs: Vec<Box<dyn DynSub>>, file: &str) -> i32 {
       return 2;
     }
   };
+  if let (Some(clock), Err(_)) = (v["clock"].as_str(), std::env::var("PV_CLOCK_SET")) {
+    // the case was found under a set wall clock: replay it in a child under the same clock
+    let lib = std::env::var("PV_FAKECLOCK").map(PathBuf::from).unwrap_or_else(|_| verif_dir().join(".work").join("libfakeclock.so"));
+    if lib.exists() {
+      if let Ok(exe) = std::env::current_exe() {
+        let st = std::process::Command::new(exe).args([property, "--replay", file]).env("LD_PRELOAD", &lib).env("PV_CLOCK_SET", clock).status();
+        return st.ok().and_then(|s| s.code()).unwrap_or(2);
+      }
+    }
+    println!("replay: the clock shim is not available; replaying under the real clock");
+  }
   let sub_name = v["sub"].as_str().unwrap_or("");
   for s in subs {
     if s.dyn_name() == sub_name {
